@@ -9,8 +9,8 @@ import copy
 import pool
 from gen import Gen, REGEXES
 
-LEVEL = "translation_validation"
-COQ_FILES = ["theories/Model/Validate.v"]
+LEVEL = "proof"
+COQ_FILES = ["theories/Model/Validate.v", "theories/Proofs/NoRaise.v", "theories/Properties/C03.v"]
 FACT_GROUPS = ["F1", "F2", "F3", "F5", "F6"]
 ALLOWED_AXIOMS = []
 TRUSTED_BASE = [
